@@ -8,7 +8,7 @@ TEXT = ('The transition relation of PlaybackStateManager is extracted from the M
         'update by path-sensitive exploration over the discriminant of `state` and compared with the documented life '
         'cycle (Stopped has no outgoing edge); fade-driven edges are guarded by the fade tween finishing; fade targets are '
         'the SILENCE/IDENTITY constants; every state change is mirrored to the handle; the decode tables match the enum; '
-        'non-advancing states return through zero-fill without touching position. Tween timing and gain values are not decided.')
+        'non-advancing states return through zero-fill without touching position; the sweep that unloads finished sounds runs on every path of every callback. Tween timing and gain values are not decided.')
 TECHNIQUE = 'MIR path-sensitive state-machine extraction + CFG must-pass / table rules'
 
 PSM = 'playback_state_manager::PlaybackStateManager'
@@ -524,6 +524,10 @@ def sound_rules(F, R):
             R.check(len(hit) >= 1, 'B.C03.unload', owner + ':predicate',
                     '%s removes sounds with a predicate that does not call Sound::finished' % owner,
                     detail='sounds.remove_and_add(|s| s.finished())', where=b.where(ra[0][0]))
+            # "unloaded at the next callback": the sweep runs in every callback, whatever state the track is in
+            R.check(all(b.dominates(ra[0][0], r) for r in b.return_blocks()) and not b.in_loop(ra[0][0]), 'B.C03.unload', owner + ':every-callback',
+                    '%s::on_start_processing can return without sweeping its sounds: a Stopped sound stays loaded (and keeps its slot) '
+                    'while that path is taken' % owner, detail='sounds.remove_and_add on every path', where=b.where(ra[0][0]))
     R.floor('B.C03.unload', nu, 4)
 
 
